@@ -9,6 +9,8 @@ import SalsaVerif.Proofs.CoreSpecFresh
 import SalsaVerif.Proofs.CoreSpecCompile
 import SalsaVerif.Proofs.CoreSpecExamples
 import SalsaVerif.Proofs.CoreSpecRevWitness
+import SalsaVerif.Proofs.CoreSpecRevFinal
+import SalsaVerif.Proofs.CoreSpecRevCompile
 
 namespace SalsaVerif.Props.C10
 open SalsaVerif.Model.CoreSpec SalsaVerif.Proofs.CoreSpec
@@ -303,39 +305,66 @@ example : outputs PB (init fun _ => ⟨0, 1, 0⟩) [.get 3] = [⟨22, some 3⟩]
   `spec(struct of c)` means the value the creator's from-scratch run specifies, else the body of
   `spec` on the struct's fields (a value the creator computed itself before specifying is kept).
 
-  FULL STATEMENT (intended; NOT YET PROVED — see below):
+  PROVED — the multi-revision statement, under the well-formedness `Wf2` (`c10_sound`, at the end
+  of the file):
 
-    theorem c10_sound (P : Prog) (hP : Wf P) (inp : Nat → Inp) (ops : List Op)
+    theorem c10_sound (P : Prog) (idOf : Nat → Nat) (hP : Wf2 P idOf) (inp : Nat → Inp) (ops : List Op)
         (hnp : (run P inp ops).panic = none) :
         outputs P (init inp) ops = refOutputs P (fun i => ((inp i).val, (inp i).dur)) ops
 
-  for histories `ops` with arbitrary `set` / `synth` between the requests (this gives the property
-  for later revisions and, since the right-hand side does not mention the request order, order
-  independence across revisions).
+  for histories `ops` with arbitrary `set` (with or without a change of durability) / `synth`
+  between the requests: every request of a panic-free history returns the from-scratch value
+  under the inputs current at that moment.  This gives the property for later revisions
+  (`c10_sound_request`: the per-request form), order independence across revisions
+  (`c10_order_independent_rev`: the right-hand side does not mention the requests made before),
+  and "a creator that stops specifying": `spec(struct)` then means the body of `spec` on the
+  struct's fields again (`c10_stops_specifying` + the instance on `PA` below it).
+  The proof (Proofs/CoreSpecRev*.lean) is an invariant `Inv` (Proofs/CoreSpecRevInv.lean) over the
+  states at entry and exit of every nested request — observer clauses for the four kinds of
+  dependencies (inputs, node memos, the tracked field of a struct, `spec` on a struct), the tie
+  between a creator's memo and its struct / `Assigned` memo (replay of the recorded reads),
+  `Busy` creators (read-locked struct while the memo is being validated) — and: a memo that passes
+  the shallow test in a state that satisfies `Inv` holds the from-scratch value
+  (Proofs/CoreSpecRevFresh.lean); the engine preserves `Inv` (Proofs/CoreSpecRevTop.lean from the
+  pieces FSpec / Shallow / ExecOk / Deep6; writes: CoreSpecRevBump.lean).
 
-  PROVED: the statement for the histories of ONE revision — any number of requests in any order
-  on a fresh database, no write in between (`c10_sound_partial`, `c10_order_independent`), for
-  programs that never read their own struct (`Wf`; the Boolean check `wfOwnFree` of the
-  line-protocol language implies it: `c10_wf_of_check`).  In one revision every memo that is
-  found is verified, so the proof covers execution (creation of structs, `specify`, the `spec`
-  function with `Assigned` / `Derived` memos, handles, the read locks), not verification.
+  What remains a HYPOTHESIS: `hnp` — the history does not panic in the model (`specifyForeign`,
+  `specifyTwice`, `secondStruct`, `staleHandle`, `deleteLocked`, `backdateViolation`,
+  `validateNotAssigned`); a panicking request is answered `panic:…` by both sides of the tie and
+  the state after it is not part of the model.  And the well-formedness:
 
-  NOT YET PROVED: the extension to histories with writes.  It needs the invariant of `Core`
-  (Proofs/CoreInv.lean: I1–I10, G4) extended by
-    * tracked fields as dependencies whose writer is the creator: `field c` behaves like an input
-      stamp that moves inside a revision when `c` re-executes (`fca := creator's stamp so far`
-      when the value changes or the durability drops), with the observer clauses I2/I3/I10 for
-      `depInfo (field c) = (slot.v, slot.fca, slot.dur)` and the order clause
-      `observer.deepAt ≤ (memo c).verifiedAt`;
-    * `Assigned` memos: valid iff the creator's memo is (`OutGood`, proved here as a step
-      theorem), value = the `specify` argument replayed from the creator's recorded reads;
-    * deletion of struct + memos when the creator stops creating, and "no leaked handle"
-      (a verified memo whose value carries handle `c` implies creator `c` verified and its struct
-      present with the recorded id);
-    * the read-lock early return of `update` (the struct is left untouched when its memo table
-      was accessed in this revision: by the creator's own output validation) — the re-execution
-      reproduces the same fields because all edges before the output edge were green.
-  Evidence for the unproved part: the executable model agrees with real salsa on values AND events
+  `Wf2 P idOf` (Proofs/CoreSpecRevWf.lean) strengthens `Wf` (the well-formedness of the
+  one-revision theorem: calls go to smaller queries, a query never reads its own struct) by three
+  conditions.  Each one excludes a history on which the MODEL returns a value that is not the
+  from-scratch value, so none can be dropped:
+    1. `specify` directly after `create`: whatever decides whether (and what) the creator
+       specifies is read BEFORE the struct is created.  Witness `c10_never_change_witness` (the
+       model-level twin of known finding kf3, which real salsa reproduces): the struct and the
+       computed `spec` memo are NEVER_CHANGE, the reader records no edge, and keeps the computed
+       value when the creator starts specifying.  The line-protocol language satisfies the
+       condition by construction (`mk c<id> v f s` evaluates `v`, `f`, `s`, then creates and
+       specifies in one step).
+    2. handle discipline (assumption A1 of the model): fields / identity / `spec` of the struct of
+       `c` are read only after a value carrying the handle `c` was received from a query read of
+       the same execution.  Witness `c10_unreceived_handle_witness` (not expressible in real salsa
+       nor in the line protocol, where handles only come from values).
+    3. one identity per creator: every `create` of node `r` uses the identity `idOf r`.  Witness
+       `c10_identity_change_witness`: line protocol
+           prog 2 1 / q 0 plain ? i0 mk c1 c0 c0 c0 mk c0 c0 c0 c0 / q 1 plain tk q0
+           get 1; set 0 1 k; get 1
+       the model answers 0 to the second request, the reference semantics 1 — and real salsa 1
+       (a changed identity field hashes to a new id): here the MODEL, not the implementation,
+       deviates: it fixes one struct per creator and `update` keeps the identity field.
+  For the line-protocol language the Boolean check `wfCheck2 (idOfList es) 0 es` (= the old check
+  `wfOwnFree` plus `Expr.idsOk`) implies `Wf2` (`c10_wf2_of_check`).
+
+  ALSO PROVED (earlier, kept): the statement for the histories of ONE revision under the weaker
+  `Wf` — any number of requests in any order on a fresh database, no write in between
+  (`c10_sound_partial`, `c10_order_independent`; the Boolean check `wfOwnFree` implies `Wf`:
+  `c10_wf_of_check`).  It does not need conditions 1–3 (in one revision every memo that is found is
+  verified), so it also covers programs with several identities per creator.
+
+  Evidence beside the proofs: the executable model agrees with real salsa on values AND events
   (see the report), and `sem` agrees with real salsa's values on every request of the same cases
   (`svdriver corespec`, op `ref`).
 -/
@@ -364,9 +393,10 @@ example : (run PA inpA (gets [0, 1])).panic = none ∧ (run PA inpA (gets [1, 0]
     outputs PA (init inpA) (gets [0, 1]) = [⟨0, some 0⟩, ⟨3, none⟩] ∧
     outputs PA (init inpA) (gets [1, 0]) = [⟨3, none⟩, ⟨0, some 0⟩] := by decide
 
-/-! ### why `Wf` alone is not enough for histories with writes: two witnesses
+/-! ### why `Wf` alone is not enough for histories with writes: three witnesses
 
-  Both programs satisfy `Wf` (the well-formedness of the one-revision theorem), run without panic,
+  The first two are Body-level programs, the third (`c10_identity_change_witness`) is a program of
+  the line-protocol language.  All three programs satisfy `Wf` (the well-formedness of the one-revision theorem), run without panic,
   and the MODEL returns a value that is not the from-scratch value after a write. -/
 
 theorem wf_PW1 : Wf PW1 := by
@@ -433,5 +463,121 @@ theorem c10_unreceived_handle_witness :
     refOutputs PW2 (fun i => ((inpW i).val, (inpW i).dur)) [.get 0, .get 1, .set 0 1 none, .get 1] =
       [⟨1, some 0⟩, ⟨0, none⟩, ⟨3, none⟩] :=
   ⟨wf_PW2, by decide⟩
+
+/-- The third witness (one identity per creator).  Line protocol
+      `prog 2 1 / q 0 plain ? i0 mk c1 c0 c0 c0 mk c0 c0 c0 c0 / q 1 plain tk q0`,
+      `get 1; set 0 1 k; get 1`:
+    the creator picks the identity of its struct by an input.  The program passes the OLD check
+    `wfOwnFree` (so it is `Wf`, `c10_wf_of_check`), fails `wfCheck2`, runs without panic; the MODEL
+    keeps the identity field of the struct it updates (0), the reference semantics — and real
+    salsa, where a changed identity field hashes to a new id — return the new identity 1. -/
+theorem c10_identity_change_witness :
+    wfOwnFree 0 [.ite (.inp 0) (.mk 1 (.const 0) (.const 0) (.const 0)) (.mk 0 (.const 0) (.const 0) (.const 0)),
+                 .tk (.qry 0)] = true ∧
+    wfCheck2 (idOfList [.ite (.inp 0) (.mk 1 (.const 0) (.const 0) (.const 0)) (.mk 0 (.const 0) (.const 0) (.const 0)),
+                 .tk (.qry 0)]) 0
+      [.ite (.inp 0) (.mk 1 (.const 0) (.const 0) (.const 0)) (.mk 0 (.const 0) (.const 0) (.const 0)),
+       .tk (.qry 0)] = false ∧
+    (run (progOf [.ite (.inp 0) (.mk 1 (.const 0) (.const 0) (.const 0)) (.mk 0 (.const 0) (.const 0) (.const 0)),
+                  .tk (.qry 0)] (.const 0)) inpW [.get 1, .set 0 1 none, .get 1]).panic = none ∧
+    outputs (progOf [.ite (.inp 0) (.mk 1 (.const 0) (.const 0) (.const 0)) (.mk 0 (.const 0) (.const 0) (.const 0)),
+                  .tk (.qry 0)] (.const 0)) (init inpW) [.get 1, .set 0 1 none, .get 1] =
+      [⟨0, none⟩, ⟨0, none⟩] ∧
+    refOutputs (progOf [.ite (.inp 0) (.mk 1 (.const 0) (.const 0) (.const 0)) (.mk 0 (.const 0) (.const 0) (.const 0)),
+                  .tk (.qry 0)] (.const 0)) (fun i => ((inpW i).val, (inpW i).dur))
+        [.get 1, .set 0 1 none, .get 1] =
+      [⟨0, none⟩, ⟨1, none⟩] := by decide
+
+/-- … and no identity function makes it pass: the two `mk` of the creator differ in the identity -/
+theorem c10_identity_change_rejected (idOf : Nat → Nat) :
+    wfCheck2 idOf 0 [.ite (.inp 0) (.mk 1 (.const 0) (.const 0) (.const 0)) (.mk 0 (.const 0) (.const 0) (.const 0)),
+                     .tk (.qry 0)] = false := by
+  simp [wfCheck2, Expr.idsOk, Expr.callsBelow, Expr.ownFree]
+  omega
+
+/-! ### the integrated claim for histories with writes (multi-revision soundness) -/
+
+/-- SOUNDNESS across revisions.  For a program that is well-formed (`Wf2`), every request of a
+    panic-free history — requests, input writes (with or without a change of durability),
+    synthetic writes, in any order — on a fresh database returns the from-scratch value of the
+    reference semantics under the inputs current at that moment: in particular the value the
+    creator's from-scratch run specifies for `spec(struct)`, else the body of `spec`. -/
+theorem c10_sound (P : Prog) (idOf : Nat → Nat) (hP : Wf2 P idOf) (inp : Nat → Inp) (ops : List Op)
+    (hnp : (run P inp ops).panic = none) :
+    outputs P (init inp) ops = refOutputs P (fun i => ((inp i).val, (inp i).dur)) ops :=
+  rev_sound hP inp ops hnp
+
+/-- programs of the line-protocol language that pass the Boolean check `wfCheck2` (the old check
+    `wfOwnFree` plus: every `mk` of query `r` uses the identity `idOfList es r`) are `Wf2` -/
+theorem c10_wf2_of_check (es : List Expr) (sb : SExpr) (h : wfCheck2 (idOfList es) 0 es = true) :
+    Wf2 (progOf es sb) (idOfList es) :=
+  wf2_progOf_list es sb h
+
+/-- non-vacuity of `c10_sound` / `c10_wf2_of_check`: `PA` passes the check; the 3-revision history
+    of the property (flag 0 / 1 / 0) runs without panic; model = reference = [2, 3, 2] -/
+example : Wf2 PA (idOfList esA) := c10_wf2_of_check esA (.inp 3) (by decide)
+example : (run PA inpA [.set 1 0 none, .get 1, .set 1 1 none, .get 1, .set 1 0 none, .get 1]).panic = none := by
+  decide
+example : outputs PA (init inpA) [.set 1 0 none, .get 1, .set 1 1 none, .get 1, .set 1 0 none, .get 1] =
+      [⟨2, none⟩, ⟨3, none⟩, ⟨2, none⟩] ∧
+    refOutputs PA (fun i => ((inpA i).val, (inpA i).dur))
+      [.set 1 0 none, .get 1, .set 1 1 none, .get 1, .set 1 0 none, .get 1] = [⟨2, none⟩, ⟨3, none⟩, ⟨2, none⟩] := by
+  decide
+/-- … and `c10_sound` applied to it -/
+example : outputs PA (init inpA) [.set 1 0 none, .get 1, .set 1 1 none, .get 1, .set 1 0 none, .get 1] =
+    refOutputs PA (fun i => ((inpA i).val, (inpA i).dur))
+      [.set 1 0 none, .get 1, .set 1 1 none, .get 1, .set 1 0 none, .get 1] :=
+  c10_sound PA (idOfList esA) (c10_wf2_of_check esA (.inp 3) (by decide)) inpA _ (by decide)
+
+/-- The per-request form: after ANY panic-free history, a request that does not panic returns the
+    from-scratch value under the current inputs. -/
+theorem c10_sound_request (P : Prog) (idOf : Nat → Nat) (hP : Wf2 P idOf) (inp : Nat → Inp) (ops : List Op)
+    (q : Nat) (hnp : (run P inp ops).panic = none) (hq : (getOp P (run P inp ops) q).1.panic = none) :
+    (getOp P (run P inp ops) q).2 = sem P (run P inp ops).inp q :=
+  rev_request hP inp ops q hnp hq
+
+/-- non-vacuity: a request of the reader after the 3-revision history -/
+example : (getOp PA (run PA inpA [.set 1 0 none, .get 1, .set 1 1 none, .get 1, .set 1 0 none, .get 1]) 1).1.panic
+    = none := by decide
+
+/-- Order independence across revisions: two histories with the same writes (`writesOf`: the `set`
+    and `synth` operations in order) — whatever requests were made in between, creator first or
+    `spec` first, in whichever revisions — leave the database in a state where a request returns
+    the same value. -/
+theorem c10_order_independent_rev (P : Prog) (idOf : Nat → Nat) (hP : Wf2 P idOf) (inp : Nat → Inp)
+    (ops1 ops2 : List Op) (q : Nat) (hw : writesOf ops1 = writesOf ops2)
+    (h1 : (run P inp ops1).panic = none) (h2 : (run P inp ops2).panic = none)
+    (hq1 : (getOp P (run P inp ops1) q).1.panic = none) (hq2 : (getOp P (run P inp ops2) q).1.panic = none) :
+    (getOp P (run P inp ops1) q).2 = (getOp P (run P inp ops2) q).2 :=
+  rev_request_congr hP inp ops1 ops2 q hw h1 h2 hq1 hq2
+
+/-- non-vacuity: the reader asked in every revision vs. only the creator asked once: same writes,
+    both histories and both final requests run without panic (and return 2) -/
+example : writesOf [.set 1 0 none, .get 1, .set 1 1 none, .get 1, .set 1 0 none, .get 1] =
+    writesOf [.set 1 0 none, .set 1 1 none, .get 0, .set 1 0 none] := rfl
+example : (run PA inpA [.set 1 0 none, .set 1 1 none, .get 0, .set 1 0 none]).panic = none ∧
+    (getOp PA (run PA inpA [.set 1 0 none, .set 1 1 none, .get 0, .set 1 0 none]) 1).1.panic = none ∧
+    (getOp PA (run PA inpA [.set 1 0 none, .set 1 1 none, .get 0, .set 1 0 none]) 1).2 = ⟨2, none⟩ ∧
+    (getOp PA (run PA inpA [.set 1 0 none, .get 1, .set 1 1 none, .get 1, .set 1 0 none, .get 1]) 1).2 = ⟨2, none⟩ := by
+  decide
+
+/-- A creator that stops specifying: when, under the current inputs, the creator's from-scratch
+    run creates the struct `(k, v)` and does not specify, the meaning of `spec(struct)` — which by
+    `c10_sound` / `c10_sound_request` is what every panic-free request gets, however often the
+    creator specified in earlier revisions — is the body of `spec` on the struct's fields. -/
+theorem c10_stops_specifying (P : Prog) (env : Nat → Inp) (c k v : Nat)
+    (hsp : (semRes P env c).sp = none) (hts : (semRes P env c).ts = some (k, v)) :
+    semSpec P env c = specBodyVal P env k v := by
+  simp only [semSpec, specVal, hsp, hts]
+
+/-- the instance on `PA`: after flag 0 / 1 / 0 the creator creates `(0, 0)` and does not specify;
+    `spec(struct)` = the body's value `i3 = 2`, and that is what the reader (`q1 = sp q0`) is
+    answered: the creator's re-execution left the stale `Assigned` memo alone, the request found it
+    "changed" and ran the body (the events are in the example of part (a)) -/
+example : (semRes PA (run PA inpA [.set 1 0 none, .get 1, .set 1 1 none, .get 1, .set 1 0 none, .get 1]).inp 0).sp = none ∧
+    (semRes PA (run PA inpA [.set 1 0 none, .get 1, .set 1 1 none, .get 1, .set 1 0 none, .get 1]).inp 0).ts = some (0, 0) ∧
+    specBodyVal PA (run PA inpA [.set 1 0 none, .get 1, .set 1 1 none, .get 1, .set 1 0 none, .get 1]).inp 0 0 = ⟨2, none⟩ ∧
+    sem PA (run PA inpA [.set 1 0 none, .get 1, .set 1 1 none, .get 1, .set 1 0 none, .get 1]).inp 1 = ⟨2, none⟩ := by
+  decide
 
 end SalsaVerif.Props.C10
